@@ -162,6 +162,7 @@ def gen_case(seed, i, mode='main'):
     storm = r.random() < 0.3
     mid_rate = r.choice((0.0, 0.0, 0.15, 0.4))
     backward = r.random() < 0.6
+    fault_rate = r.choice((0.0, 0.0, 0.1, 0.3))
     state = {'created': 0, 'history': {}}
     ops = []
     cur = spec
@@ -237,6 +238,14 @@ def gen_case(seed, i, mode='main'):
             # which module gets rewritten is known only at run time: later requests are generated against the
             # interface (stable names), and the engine tracks the real content
             last_edit = None
+            continue
+        if r.random() < fault_rate:
+            if r.random() < 0.6:
+                op['io_error'] = {'at': r.choice((0, 1, 2, 3, 4, 6, 9, 13, 20)), 'errno': r.choice((5, 13, 24)),
+                                  'when': r.choice(('any', 'any', 'open', 'stat', 'listdir'))}
+            else:
+                op['stack'] = r.choice((30, 40, 50, 60, 80, 100, 130, 170, 220, 300))
+            ops.append(op)
             continue
         if r.random() < mid_rate:
             e, cur2 = gen_edit(r, cur, state, backward)
@@ -553,10 +562,27 @@ class History(object):
                                 self.probes['edit_landed_inside_request'] += 1
                                 self.fault('edit_during_request')
                     self.fs.hook = hook
+                ioerr = op.get('io_error')
+                fired = {'n': 0}
+                if ioerr and not mid:
+                    # a read of the project's files fails once (EIO on a network disk, EACCES while another program
+                    # holds the file, EMFILE): this request may fail or answer less, the disk state is what it was
+                    def hook(kind, path, idx, ioerr=ioerr, fired=fired):
+                        if not fired['n'] and idx - io0 >= ioerr['at'] and ioerr.get('when', 'any') in ('any', kind):
+                            fired['n'] = 1
+                            self.fault('io_error_%s_errno%d' % (kind, ioerr['errno']))
+                            raise OSError(ioerr['errno'], os.strerror(ioerr['errno']), str(path))
+                    self.fs.hook = hook
                 io0 = self.fs.calls
                 self.clock.request_starts()
                 self.fs.opened.clear()
-                got = ask(server, self.root, req)
+                if op.get('stack') and not mid and not ioerr:
+                    # the request runs out of stack at some depth (see C04): it may fail, later ones must not notice
+                    got = with_stack_limit(op['stack'], lambda: ask(server, self.root, req))
+                    self.fault('request_with_short_stack')
+                    fired['n'] = 1
+                else:
+                    got = ask(server, self.root, req)
                 self.fs.hook = None
                 nio = self.fs.calls - io0
                 deferred = mid['edit'] if (mid and not landed['done'] and mid['edit']['op'] != 'rewrite_accessed') else None
@@ -565,6 +591,9 @@ class History(object):
                     # either version, or a mixture, is acceptable for the request an edit landed in
                     self.log.add('request', oi, req['kind'], 'not-compared', nio)
                     any_edit = True
+                    continue
+                if fired['n']:
+                    self.log.add('request', oi, req['kind'], 'faulted', nio, prng.digest(got))
                     continue
                 if op.get('compare') is False:
                     # filler request of a long session: it only has to load its modules
@@ -602,6 +631,21 @@ class History(object):
             idhash.uninstall()
             shutil.rmtree(self.root, ignore_errors=True)
         return self
+
+
+def with_stack_limit(frames, fn):
+    import sys
+    f = sys._getframe()
+    depth = 0
+    while f is not None:
+        depth += 1
+        f = f.f_back
+    old = sys.getrecursionlimit()
+    sys.setrecursionlimit(depth + frames)
+    try:
+        return fn()
+    finally:
+        sys.setrecursionlimit(old)
 
 
 def _b(x):
